@@ -85,6 +85,45 @@ def replay(pid, unit, cex, path):
                 bad.append("add_preserves_topk_invariant")
             return bad, path, nat
         return [], path, {"error": "no native replay for heap op %s" % op}
+    if model == "qf":
+        from mir2smt.m_qf import enc_py
+        bq, br = cex["bq"], cex["br"]
+        NQ, NR = 1 << bq, 1 << br
+        L = ["# engine: M", "exec qf", "bq %d" % bq, "br %d" % br, "members " + ",".join("%d:%d" % tuple(e) for e in cex["members"]), "op " + cex["op"]]
+        if cex["op"] == "insert":
+            L.append("y %d:%d" % tuple(cex["y"]))
+        else:
+            L.append("other " + ",".join("%d:%d" % tuple(e) for e in cex["other"]))
+        nat = mrun.native_exec("\n".join(L) + "\n", path)
+        if nat.get("error"):
+            return [], path, nat
+        X = set(tuple(e) for e in cex["members"])
+        bad = []
+        if not nat.get("reach_ok"):
+            return [], path, dict(nat, error="pre-state not reachable through the public API")
+        if cex["op"] == "insert":
+            y = tuple(cex["y"])
+            present, full = y in X, len(X) == NQ
+            exp_res = "ok_false" if present else ("err" if full else "ok_true")
+            X2 = X | {y} if exp_res == "ok_true" else X
+            if (nat["result"] == "err") != (exp_res == "err"): bad.append("insert_result_kind")
+            if nat["result"] != exp_res and nat["result"] != "err" and exp_res != "err": bad.append("insert_true_iff_new_class")
+        else:
+            Y = set(tuple(e) for e in cex["other"])
+            fits = len(X | Y) <= NQ
+            X2 = (X | Y) if fits else X
+            if (nat["result"] == "ok") != fits: bad.append("union_ok_iff_fits")
+            if not nat.get("other_unchanged", True): bad.append("union_other_unchanged")
+        if nat["len"] != len(X2): bad.append("len_is_number_of_classes" if cex["op"] == "insert" else "union_len")
+        e = enc_py(X2, NQ, NR)
+        ok = True
+        for t in range(NQ):
+            s_ = nat["slots"][t]
+            if [bool(s_[0]), bool(s_[1]), bool(s_[2])] != e[t][:3]: ok = False
+            if any(e[t][:3]) and s_[3] != e[t][3]: ok = False
+        if not ok:
+            bad.append("post_state_is_canonical_encoding" if cex["op"] == "insert" else "union_state_is_encoding_of_union_or_unchanged")
+        return bad, path, nat
     return [], path, {"error": "no native replay for model %s" % model}
 
 
